@@ -402,6 +402,11 @@ func genReload(r *rand.Rand, id string, size int, total int) []string {
 			deliver(q, p)
 		}
 		g.add("obs %d", p)
+		if g.pick(4) == 0 {
+			// a reload whose context has already ended must say that it loaded nothing (F32)
+			g.add("restart %d ctx=cancelled", p)
+			g.add("obs %d", p)
+		}
 		g.add("restart %d", p)
 		g.add("obs %d", p)
 		for k := g.pick(3); k > 0; k-- {
@@ -493,7 +498,7 @@ func genStatus(r *rand.Rand, id string, size int, total int) []string {
 	return g.lines
 }
 
-var forgeRecipes = []string{"own", "copiedid", "copiedblock", "foreignkey", "otherlog", "badhash", "wronghash", "wronghash",
+var forgeRecipes = []string{"own", "copiedid", "copiedblock", "foreignkey", "otherlog", "badhash", "wronghash", "wronghash", "malleate", "malleate", "noident",
 	"mut-payload", "mut-time", "mut-clockid", "mut-next", "mut-refs", "mut-key", "mut-sig",
 	"mut-identid", "mut-identpk", "mut-identsig", "mut-logid", "othertype", "mut-identtype", "selfsigned", "mut-identsigpk"}
 
@@ -618,7 +623,7 @@ func genForge(r *rand.Rand, id string, size int, total int) []string {
 				as = honestWriters[g.pick(len(honestWriters))]
 			}
 			base := "none"
-			if g.pick(2) == 0 {
+			if g.pick(2) == 0 || rec == "malleate" {
 				base = fmt.Sprint(members[g.pick(len(members))])
 			}
 			shape := g.pick(4)
@@ -765,16 +770,25 @@ func genGarbage(r *rand.Rand, id string, size int, total int) []string {
 			g.add("unchanged %d", q)
 		}
 	}
-	if kind == "doc" && g.pick(2) == 0 {
-		// a writer is not bound to what the store API writes: a validly signed entry whose batch of
-		// documents holds a `null` member reaches the others like any other entry
+	if kind != "log" && g.pick(2) == 0 {
+		// a writer is not bound to what the store API writes: a validly signed entry whose payload is not
+		// an operation at all, names an operation the view does not know (on a key that has a value), or
+		// (document stores) whose batch holds a `null` member reaches the others like any other entry: it
+		// changes nothing, and what is written afterwards still shows
 		a := peers[g.pick(len(peers))]
 		q := peers[g.pick(len(peers))]
 		for q == a {
 			q = peers[g.pick(len(peers))]
 		}
-		g.add("forge %d recipe=own base=%d k=%s v=%s raw=%s", a, a, hx([]byte("d1")), hx([]byte("x")), hx([]byte(`{"key":"","op":"PUTALL","docs":[null]}`)))
+		raws := []string{"certainly not an operation", `{"op":"XYZ","key":"k","value":"eA=="}`, `{"op":"XYZ","key":"d1","value":"eA=="}`, `{"key":"","op":"PUTALL","docs":[null]}`}
+		raw := raws[g.pick(len(raws))]
+		if kind == "kv" && raw == raws[3] {
+			raw = raws[0]
+		}
+		g.add("forge %d recipe=own base=%d k=%s v=%s raw=%s", a, a, hx([]byte("d1")), hx([]byte("x")), hx([]byte(raw)))
 		g.add("inject %d heads=@last route=%s from=%d", q, []string{"pub", "dc"}[g.pick(2)], a)
+		g.add("obs %d", q)
+		write(q)
 		g.add("obs %d", q)
 	}
 	// later valid traffic must still be handled
